@@ -11,7 +11,7 @@ PROP = {
                'A result is allowed only if len>=20, type==0x0101, 20+declared<=len and the id matches, and must equal the reference decode of an address attribute lying inside the declared message; '
                'canonical responses must yield exactly the encoded address/port. The reference and the parser are both checked against the RFC 5769 2.2/2.3 sample responses each run.',
  'level_note': 'Completeness only on canonical strict-RFC responses (DESIGN 7). Tolerated: address values longer than the family needs (leading bytes used), cookie field not validated, '
-               'IPv6 text compared through inet_pton (IPv4 text compared to the dotted quad).',
+               'IPv6 text compared through inet_pton (IPv4 text compared to the dotted quad). Second compiler: the same tapes also run against a g++ -O2 ASan/UBSan build of the code under test (engine \'tape-rc (second compiler…)\'), because the two compilers instrument and optimise undefined behaviour differently (e.g. abs(INT64_MIN) is only reported by g++\'s UBSan, and clang can fold such UB into a correct-looking result); failing tapes of that engine are kept as *.gcc.tape and replayed with that build.',
  'assumptions': ['libc inet_pton is a correct text-to-binary reference', 'an address attribute is well placed iff its header and value lie inside the declared message length on the 4-byte TLV walk from offset 20'],
- 'tiers': {'quick': [rc(25000)],
-           'thorough': [rc(500000, W), fuzz(300, W, max_len=16 + 512)]}}
+ 'tiers': {'quick': [rc(25000), rc(25000, suffix='_gcc')],
+           'thorough': [rc(500000, W), fuzz(300, W, max_len=16 + 512), rc(500000, 4, suffix='_gcc')]}}
